@@ -59,3 +59,6 @@ ll_t *g_nb_prev, *g_nb_next;
 
 /* strlen hint (stubs/libc.c, -DVERIF_STRLEN_HINT): the length of one designated input string */
 const char *g_strlen_hint_s; size_t g_strlen_hint_n;
+
+/* jwks_process unit: calls of jwks_free (there must be none) */
+unsigned g_setfree_calls;
